@@ -45,12 +45,19 @@ func (c *clientWrapper) Call(ctx context.Context, req client.Request, rsp interf
 		slotChain := sentinel.BuildDefaultSlotChain()
 		slotChain.AddRuleCheckSlot(outlier.DefaultSlot)
 		slotChain.AddStatSlot(outlier.DefaultMetricStatSlot)
-		entry, _ := sentinel.Entry(
+		entry, blockErr := sentinel.Entry(
 			req.Service(),
 			sentinel.WithResourceType(base.ResTypeRPC),
 			sentinel.WithTrafficType(base.Outbound),
 			sentinel.WithSlotChain(slotChain),
 		)
+		if blockErr != nil {
+			// entry is nil when the request is blocked: do not call the wrapped client
+			if options.clientBlockFallback != nil {
+				return options.clientBlockFallback(ctx, req, blockErr)
+			}
+			return blockErr
+		}
 		defer entry.Exit()
 		opts = append(opts, WithSelectOption(entry))
 		opts = append(opts, WithCallWrapper(entry))
@@ -85,19 +92,32 @@ func (c *clientWrapper) Stream(ctx context.Context, req client.Request, opts ...
 		}
 		return stream, err
 	} else {
-		slotChain := sentinel.GlobalSlotChain()
+		// a private chain, as in Call: appending to the global chain on every call made it grow without bound
+		slotChain := sentinel.BuildDefaultSlotChain()
 		slotChain.AddRuleCheckSlot(outlier.DefaultSlot)
 		slotChain.AddStatSlot(outlier.DefaultMetricStatSlot)
-		entry, _ := sentinel.Entry(
+		entry, blockErr := sentinel.Entry(
 			req.Service(),
 			sentinel.WithResourceType(base.ResTypeRPC),
 			sentinel.WithTrafficType(base.Outbound),
 			sentinel.WithSlotChain(slotChain),
 		)
+		if blockErr != nil {
+			// entry is nil when the request is blocked: do not call the wrapped client
+			if options.streamClientBlockFallback != nil {
+				return options.streamClientBlockFallback(ctx, req, blockErr)
+			}
+			return nil, blockErr
+		}
 		defer entry.Exit()
 		opts = append(opts, WithSelectOption(entry))
 		opts = append(opts, WithCallWrapper(entry))
-		return c.Client.Stream(ctx, req, opts...)
+		stream, err := c.Client.Stream(ctx, req, opts...)
+		if err != nil {
+			// call wrappers do not run for streams: trace the error here
+			sentinel.TraceError(entry, err)
+		}
+		return stream, err
 	}
 }
 
